@@ -93,6 +93,9 @@ func Corpus() *Env {
 	// a record that inherits record-typed fields (nested partial updates through an include)
 	add(&Decl{Name: "InclNested", Kind: "record", Includes: []string{"Nested"}, Fields: []Field{
 		opt("x", P("i32")), opt("own", R("Inner"))}})
+	// an entity with fields named like the partial-update envelope
+	add(&Decl{Name: "HasPatch", Kind: "record", Fields: []Field{
+		opt("patch", P("str")), opt("other", P("i32")), opt("inner", R("Inner"))}})
 	add(&Decl{Name: "MapKeys", Kind: "record", Fields: []Field{req("m", M(P("str"))), opt("mi", M(P("i32")))}})
 	return e
 }
